@@ -676,3 +676,6 @@ def run(ctx):  # noqa: F811
     # simplification in SandwichOperator.make (shared with C11): scaling bun -> |f|^2 * cheese
     from .c11 import r11_5
     r11_5(ctx, ctx.model, rid="R01.4")
+    # sign bookkeeping of nested sums (shared with C02)
+    from .c02 import r02_8
+    r02_8(ctx, ctx.model, rid="R01.5")
